@@ -13,6 +13,7 @@ From Coq Require Import String.
 From Verif Require Import Params Base Value Formatter FormatSpec FormatProofs FormatText FormatBound.
 From Verif Require Lexer Literals Parser LexBridge LexBridge2 Complete LexRender ParseRun CollateCompare.
 From Verif Require RoundTripLit RoundTripLeaf RoundTripScan RoundTripDeriv RoundTripProofs RoundTripSets RoundTripTotal.
+From Verif Require ErrorTokens ScanUpto FormatDeep RoundTripScanE ParserPrefix.
 From Verif Require Import RoundTrip.
 Open Scope Z_scope.
 
@@ -143,9 +144,10 @@ Theorem C10_hex_text_ok : forall z : Z, is_hex_literal (hex_text z) = true.
 Proof. exact hex_text_ok. Qed.
 
 (* ---- non-vacuity and the constants of the source ---- *)
-(* the default maximum of formatter.go covers the nesting 0..7 (+ the outermost collection) of the
-   canonical universe; lowering the constant in the source breaks this obligation *)
-Example C10_default_maximum_covers_universe : (7 + 1 <= Z.to_nat formatter_default_maximum)%nat.
+(* the default maximum of formatter.go lets at least the outermost collection through (the number itself is whatever
+   the source says today: the property is stated "up to the formatter's depth limit"; the correspondence takes its
+   nesting range from the class constant at run time) *)
+Example C10_default_maximum_covers_universe : (1 <= Z.to_nat formatter_default_maximum)%nat.
 Proof. vm_compute. lia. Qed.
 
 Definition ex_ftext (b : Z) : list Z := if b =? 4696837146684686336 then s2z "1E+06" else s2z "1.5E-07".
@@ -382,13 +384,69 @@ Theorem C10_sets_sorted_ascending :
     Parser.set_build crank [] (map (canon crank) l) = Some (map (canon crank) l).
 Proof. exact RoundTripSets.ascending_sorted. Qed.
 (* ---- elided values are not parsed ----
-   FULL STATEMENT (not proved): for every v with nest_depth v > maximum that FormatValue accepts,
-     exists t, parse_source fparse crank (text of v) = PSyntax t /\ ttype_of t = TError /\ tval t = "."
-   PROVED: the chains of single-item sequences deeper than the default limit (every unfolding of a
-   self-containing list / array / set / stack / queue, any kind): the diagnostic names the first dot,
-   line 1, position 10.  MISSING for the full statement: the scanner on a scannable PREFIX followed by
-   arbitrary text (LexRender.scannable speaks of whole renderings) and the parser on a proper prefix
-   of a derivation followed by an Error token (Complete.v speaks of whole derivations). *)
+   For EVERY value nested deeper than the limit that FormatValue accepts (under the float hypothesis,
+   which the scanner needs for the literals before the dots):
+   (1) the scanner turns the text into the tokens before the first "..." (none of them an Error token),
+       the Error token "." at the line and position of the first dot, and EOF
+       (RoundTripScanE.tokens_of_scan_upto: every formatter output is scannable up to its first elision;
+        ErrorTokens.lex_prefix_dot: the scanner on a scannable prefix followed by arbitrary text);
+   (2) the parser never consumes an Error token (ErrorTokens.accepted_no_error, from ParserProofs.nonEOF),
+       so ParseSource does NOT return a value: it stops with a located diagnostic for a token of that stream.
+   NOT proved: that the diagnostic names the Error token itself rather than an earlier token (it needs
+   the parser on a proper prefix of a derivation); C10_elided_not_parsed_partial below pins it for the
+   chains of single-item sequences, RoundTripRun.v observes it on every generated elided text. *)
+Theorem C10_format_elides_beyond_limit :
+  forall (ftext : Z -> list Z) (printable : Z -> bool) (maximum : nat) (v : val) (ts : list ftoken),
+    (maximum < nest_depth v)%nat -> tokens_of ftext printable maximum v = Some ts -> has_elision ts = true.
+Proof. exact FormatDeep.format_elides_beyond_limit. Qed.
+
+Theorem C10_round_trip_scannable_upto_elision :
+  forall (fparse : list Z -> option Z) (ftext : Z -> list Z) (printable : Z -> bool) (maximum : nat)
+         (v : val) (ts : list ftoken),
+    tokens_of ftext printable maximum v = Some ts -> floats_roundtrip fparse ftext v = true ->
+    ScanUpto.scan_upto (convs ts).
+Proof. exact RoundTripScanE.tokens_of_scan_upto. Qed.
+
+Theorem C10_elided_not_parsed :
+  forall (fparse : list Z -> option Z) (crank : val -> val -> option comparison) (ftext : Z -> list Z)
+         (printable : Z -> bool) (maximum : nat) (v : val) (text : list Z),
+    (maximum < nest_depth v)%nat -> format0 ftext printable maximum v = Ret text ->
+    floats_roundtrip fparse ftext v = true ->
+    (exists pre line pos,
+       Lexer.lex text = pre ++ [Lexer.mkTok Lexer.TError [46] line pos; Lexer.mkTok Lexer.TEOF [46] line pos] /\
+       Forall (fun t => Lexer.ttype_of t <> Lexer.TError) pre) /\
+    (exists t, Parser.parse_source fparse crank text = Parser.PSyntax t /\ In t (Lexer.lex text)).
+Proof. exact RoundTripScanE.elided_not_parsed. Qed.
+
+(* the general facts behind it, for any source text *)
+Theorem C10_lex_scannable_prefix_then_dot :
+  forall (ts : list LexRender.rtok) (r : list Z), ErrorTokens.scan_before (46 :: r) ts ->
+    Lexer.lex (LexRender.render_toks ts ++ 46 :: r) =
+    fst (ErrorTokens.place_pre ts 1 1) ++
+    [Lexer.mkTok Lexer.TError [46] (fst (snd (ErrorTokens.place_pre ts 1 1))) (snd (snd (ErrorTokens.place_pre ts 1 1)));
+     Lexer.mkTok Lexer.TEOF [46] (fst (snd (ErrorTokens.place_pre ts 1 1))) (snd (snd (ErrorTokens.place_pre ts 1 1)))].
+Proof. exact ErrorTokens.lex_prefix_dot. Qed.
+Theorem C10_accepted_source_has_no_error_token :
+  forall (fparse : list Z -> option Z) (crank : val -> val -> option comparison) (src : list Z) (v : val),
+    Parser.parse_source fparse crank src = Parser.PValue v ->
+    Forall (fun t => Lexer.ttype_of t <> Lexer.TError) (Lexer.lex src).
+Proof. exact ErrorTokens.accepted_no_error. Qed.
+
+(* towards the pinned diagnostic in general: the parser on a proper prefix of a derivation that ends in "["
+   followed by an Error token — the shape of an elided output — stops with the diagnostic for THAT token
+   (ParserPrefix.v: estopc = the inductive viable prefixes, the items in front whole derivations; the base
+   case open_error: read from the queue get_next stops on it, handed out from the push-back stack every
+   alternative of parseItems fails on it and parseSequence blames it).  What is still missing to retire
+   the _partial theorem below: the construction of estopc for the FORMATTER's tokens before the first
+   elision (the items in front are derivations by C10_round_trip_derivation). *)
+Theorem C10_prefix_open_error :
+  forall (fparse : list Z -> option Z) (crank : val -> val -> option comparison) (e : Lexer.token) (ts r : list Lexer.token),
+    Lexer.ttype_of e = Lexer.TError -> ParserPrefix.estopc fparse crank e ts ->
+    Parser.parse_tokens fparse crank (ts ++ r) = Parser.PSyntax e.
+Proof. exact ParserPrefix.prefix_open_error. Qed.
+
+(* the diagnostic pinned to the first dot: the chains of single-item sequences deeper than the default
+   limit (every unfolding of a self-containing list / array / set / stack / queue) *)
 Theorem C10_elided_not_parsed_partial :
   forall (fparse : list Z -> option Z) (crank : val -> val -> option comparison) (ftext : Z -> list Z)
          (printable : Z -> bool) (k : skind) (n : nat),
@@ -396,7 +454,7 @@ Theorem C10_elided_not_parsed_partial :
     exists text t,
       format0 ftext printable (Z.to_nat formatter_default_maximum) (selfnest k n) = Ret text /\
       Parser.parse_source fparse crank text = Parser.PSyntax t /\
-      Lexer.ttype_of t = Lexer.TError /\ Lexer.tval t = [46] /\ Lexer.tline t = 1 /\ Lexer.tpos t = 10.
+      Lexer.ttype_of t = Lexer.TError /\ Lexer.tval t = [46] /\ Lexer.tline t = 1 /\ Lexer.tpos t = formatter_default_maximum + 2.
 Proof. exact RoundTripProofs.elided_selfnest_not_parsed. Qed.
 
 (* ---- non-vacuity of the composed theorem, and what falls outside its universe ---- *)
@@ -496,6 +554,10 @@ Proof.
   exists (VSeq KSet [VByte 7; VInt 16 26660]). eexists. eexists. split; [reflexivity|]. split; [vm_compute; reflexivity|].
   split; [vm_compute; reflexivity|]. split; [vm_compute; reflexivity|]. vm_compute; discriminate.
 Qed.
+(* the hypotheses of C10_elided_not_parsed hold of TestFormatMaximum's value at limit 1 *)
+Example C10_ex_elided_hypotheses :
+  (1 < nest_depth ex_nested)%nat /\ floats_roundtrip rt_fparse ex_ftext ex_nested = true.
+Proof. vm_compute. split; [lia|reflexivity]. Qed.
 (* the elided text of TestFormatMaximum's value at limit 1: rejected at the first dot, line 3 *)
 Example C10_ex_elided_not_parsed :
   match format0 ex_ftext ex_print 1 ex_nested with
@@ -543,6 +605,12 @@ Print Assumptions C10_round_trip_equal.
 Print Assumptions C10_round_trip_equal_table.
 Print Assumptions C10_text_fixpoint.
 Print Assumptions C10_sets_sorted_ascending.
+Print Assumptions C10_format_elides_beyond_limit.
+Print Assumptions C10_round_trip_scannable_upto_elision.
+Print Assumptions C10_elided_not_parsed.
+Print Assumptions C10_lex_scannable_prefix_then_dot.
+Print Assumptions C10_accepted_source_has_no_error_token.
+Print Assumptions C10_prefix_open_error.
 Print Assumptions C10_elided_not_parsed_partial.
 Print Assumptions C10_text_fixpoint_narrow_keys_refuted.
 Print Assumptions C10_text_fixpoint_unsorted_set_refuted.
